@@ -82,8 +82,13 @@ func c16Find(ts []int64, lo int, window, bt time.Duration, netHead *vhdr.Header)
 }
 
 // level 2: subjectiveTail end to end (renewTail + moveTail) on the real store; observe the store afterwards
+// options of the next c16Move call (kept out of its signature)
+var c16FailFirst, c16Pend bool
+
 func c16Move(ts []int64, lo int, window, bt time.Duration, netExtra int, syncFromHeight uint64, label string) {
 	ctx := context.Background()
+	failFirst, pend := c16FailFirst, c16Pend
+	c16FailFirst, c16Pend = false, false
 	chain := chainWithTimes(ts)
 	local := len(chain) - netExtra // the local store holds lo..local, the network has the whole chain
 	st := newStoreWith(chain, lo, local)
@@ -96,6 +101,19 @@ func c16Move(ts []int64, lo int, window, bt time.Duration, netExtra int, syncFro
 	s, _ := newSyncer(g, st, opts...)
 	s.VerifSetPolicy(1000*time.Hour, bt, 0)
 	head := chain[len(chain)-1]
+	if pend {
+		// the verified network head is ahead of the store: it sits in the pending ranges while the tail is renewed
+		_ = s.VerifIncomingNetworkHead(ctx, head)
+	}
+	if failFirst {
+		// a transient getter failure on the first attempt only
+		g.mu.Lock()
+		g.failH = map[uint64]bool{}
+		for h := 1; h <= len(chain); h++ {
+			g.failH[uint64(h)] = true
+		}
+		g.mu.Unlock()
+	}
 	run := func() string {
 		return guard(func() string {
 			// bounded: a tail computation that parks on a height above the store head never returns by itself
@@ -116,6 +134,11 @@ func c16Move(ts []int64, lo int, window, bt time.Duration, netExtra int, syncFro
 	}
 	r1 := run()
 	_ = st.Sync(ctx)
+	if failFirst {
+		g.mu.Lock()
+		g.failH = nil
+		g.mu.Unlock()
+	}
 	r2 := run() // a second attempt must not fail if the first did not: no wedge
 	_ = st.Sync(ctx)
 	tl, hd := uint64(0), uint64(0)
@@ -138,6 +161,13 @@ func c16Move(ts []int64, lo int, window, bt time.Duration, netExtra int, syncFro
 	if gs == "" {
 		gs = "-"
 	}
+	// a tail moved DOWN must have been filled in: readable heights in [tail, lo)
+	filled := 0
+	for h := int(tl); h >= 1 && h < lo; h++ {
+		if x, err := st.GetByHeight(cancelled, uint64(h)); err == nil && x.H == uint64(h) {
+			filled++
+		}
+	}
 	// spacing facts for the retention clause
 	maxGap, minGap := int64(0), int64(1<<62)
 	for i := 1; i < len(ts); i++ {
@@ -149,8 +179,8 @@ func c16Move(ts []int64, lo int, window, bt time.Duration, netExtra int, syncFro
 			minGap = d
 		}
 	}
-	emit("C16 kind=move label=%s window=%d bt=%d lo=%d local=%d headH=%d headT=%d maxgap=%d mingap=%d sfh=%d => r1=%s r2=%s tail=%d head=%d gone=%s youngestGoneT=%d",
-		label, int64(window), int64(bt), lo, local, head.H, head.T, maxGap, minGap, syncFromHeight, r1, r2, tl, hd, gs, youngestGone)
+	emit("C16 kind=move label=%s failfirst=%d pend=%d window=%d bt=%d lo=%d local=%d headH=%d headT=%d maxgap=%d mingap=%d sfh=%d => r1=%s r2=%s tail=%d head=%d gone=%s youngestGoneT=%d filled=%d",
+		label, b2i(failFirst), b2i(pend), int64(window), int64(bt), lo, local, head.H, head.T, maxGap, minGap, syncFromHeight, r1, r2, tl, hd, gs, youngestGone, filled)
 }
 
 // a gossiped header the Syncer REFUSES (its height is already known) must not drive pruning: with a started
@@ -303,6 +333,16 @@ func runC16(tier string, r *rng) {
 	// SyncFromHeight up and down
 	for _, sfh := range []uint64{1, 5, 40, 80} {
 		c16Move(mk(80, sec), 20, hour, sec, 0, sfh, "syncFromHeight")
+	}
+	// ... with a transient getter failure on the first attempt (the retry must go through), and with the verified
+	// network head still pending (store lags by several headers) while the tail is moved down
+	for _, sfh := range []uint64{5, 10} {
+		c16FailFirst = true
+		c16Move(mk(80, sec), 20, hour, sec, 0, sfh, "syncFromHeight-fault")
+		c16Pend = true
+		c16Move(mk(80, sec), 20, hour, sec, 6, sfh, "syncFromHeight-pending")
+		c16FailFirst, c16Pend = true, true
+		c16Move(mk(80, sec), 20, hour, sec, 3, sfh, "syncFromHeight-fault-pending")
 	}
 	k := 40
 	if tier == "thorough" {
